@@ -7,6 +7,7 @@ META = {
  "C17": dict(level="proof", explanation="multi-cycle postconditions from an arbitrary register state of the real 8b/10b encoder/decoder pipelines"),
  "C12": dict(level="proof", explanation="one-step postconditions of the real CSR bank against a layout spec function, all inputs and register states"),
  "C06": dict(level="proof", explanation="per-cycle routing/ownership/response postconditions on the real Wishbone arbiter, decoder, shared interconnect and crossbar with real SoCRegion decoders"),
+ "C07": dict(level="proof", explanation="symbolic-address (tracked byte) contracts on the real wishbone.SRAM and transaction-translation contracts on the real converters, remapper and CSR bridge"),
  "C04": dict(level="proof", explanation="hold-until-ready two-cycle postcondition and bounded-response (progress) obligations from every invariant state of the real stream/packet modules"),
 }
 
@@ -37,5 +38,7 @@ CLAIMS["C12"] = _hw("DESIGN.md §3 C12", "Per-cycle write / read / strobe / fram
                     "_sort_gathered_items is only checked by exhaustive small-scope enumeration (bounded, not counted as proved); CSR SRAM windows not covered yet.")
 CLAIMS["C06"] = _hw("DESIGN.md §3 C06", "Mutual exclusion, ownership until the master drops cyc, routing by the real SoCRegion.decoder window (and to no slave when nothing matches), forwarding, ack/err only to the owner, one termination per request, read data of the answering slave and bounded fairness of the round-robin are per-cycle postconditions proved for all request patterns and slave latencies on a grid of shared/crossbar interconnects; each decoder is proved equal to its power-of-two window over all addresses.",
                     "Known finding: Decoder(register=True) returns stale-select read data when a slave acknowledges in the first cycle.")
+CLAIMS["C07"] = _hw("DESIGN.md §3 C07", "wishbone.SRAM (classic cycles; read-only; init) by the symbolic-address method: a rigid arbitrary byte is tracked by a ghost and every acknowledged read of it returns the ghost, writes change it iff selected, one ack per cycle; Down/UpConverter, Converter, Remapper and Wishbone2CSR by transaction-translation contracts (exact sub-access address/data/select mapping, skip of unselected lanes, read-data assembly, exactly one ack / one CSR access).",
+                    "Cache, SRAM burst cycles and converter burst tags are not covered (tier 2); meta-lemmas M3/M5 are paper arguments.")
 _NYB = "check not built yet in this session (see DESIGN.md build order); will be claimed when its contracts are committed"
 NOT_APPLICABLE = {p: _NYB for p in ["C%02d" % i for i in range(1, 21)]}
